@@ -178,6 +178,25 @@ func genMux() (string, error) {
 		return "", fmt.Errorf("p2p/p2p.go: NewStreams not found")
 	}
 	fmt.Fprintf(&b, "def src_NewStreams : String := %q\n", g.StmtsText(ns.Body.List))
+	// every Stream gets its OWN message assembler: in each `Stream{…}` literal of NewStreams the field
+	// msgAssembler is a make(…) call (a fresh allocation), not a slice of some variable shared by the streams
+	nStreams, fresh := 0, 0
+	ast.Inspect(ns.Body, func(n ast.Node) bool {
+		cl, ok := n.(*ast.CompositeLit)
+		if !ok || g.ExprText(cl.Type) != "Stream" {
+			return true
+		}
+		nStreams++
+		for _, el := range cl.Elts {
+			if kv, ok := el.(*ast.KeyValueExpr); ok && g.ExprText(kv.Key) == "msgAssembler" {
+				if c, ok := kv.Value.(*ast.CallExpr); ok && g.ExprText(c.Fun) == "make" {
+					fresh++
+				}
+			}
+		}
+		return true
+	})
+	fmt.Fprintf(&b, "/-- every stream of a connection has its own message assembler (a fresh `make` per `Stream{…}` in NewStreams) -/\ndef assemblerPerStream : Bool := %v\n", nStreams > 0 && fresh == nStreams)
 	nw := p2f.FindFunc("", "New")
 	if nw == nil {
 		return "", fmt.Errorf("p2p/p2p.go: New not found")
